@@ -35,6 +35,31 @@ open_('F07i', 'C04', 'interrupted_late', 'C04/cons:1/interrupted_late',
        T(2, ('KFixed', Z(3))), ('OAddRequired', N(2), ('ArgW', ('WPlain', N(1))), False, Z(0), Z(0))],
       'a task assigned to the resource after ResourceInterrupted was created may overlap the interruption [F07]', pin={'T2_start': 1})
 
+TD = lambda i, kind, opt=False, due=None, prio=1: ('ONewTask', N(i), kind, opt, Z(0), None, optZ(due), False, Z(prio))
+REQ = lambda t, w: ('OAddRequired', N(t), ('ArgW', ('WPlain', N(w))), False, Z(0), Z(0))
+open_('F34', 'C08', 'flowtime_single_resource', 'C08/ind:1/flowtime_single_resource',
+      [('ONewProblem', Some(Z(10))), W(1), T(1, ('KFixed', Z(2))), T(2, ('KFixed', Z(2))), REQ(1, 1), REQ(2, 1),
+       ('ONewObjective', ('OFlowtimeSingle', ('ResW', ('WPlain', N(1))), None), N(1))],
+      'the indicator behind ObjectiveMinimizeFlowtimeSingleResource is not a function of the schedule: the min side tests '
+      'start <= lower_bound and both extrema are Or-of-implications, so values other than (latest end - earliest start) are admitted [F34]',
+      pin={'T1_start': 0, 'T2_start': 5})
+open_('F38', 'C08', 'max_lateness_optional', 'C08/ind:1/max_lateness_optional',
+      [('ONewProblem', Some(Z(30))), TD(1, ('KFixed', Z(1)), due=25), TD(2, ('KFixed', Z(2)), opt=True, due=6),
+       ('ONewIndicator', N(1), ('IMaxLateness', None), None)],
+      'IndicatorMaximumLateness takes the maximum over unscheduled optional tasks too (their end is the point in the past '
+      '-task_number): T1 ends at 1 with due date 25 (lateness -24) and the unscheduled T2 contributes -2 - 6 = -8 [F38]',
+      pin={'T1_start': 0, 'T2_scheduled': False})
+open_('F18', 'C08', 'nb_tasks_cumulative', 'C08/ind:1/nb_tasks_cumulative',
+      [('ONewProblem', Some(Z(10))), ('ONewCumulative', N(1), Z(2), Z(2), ('CostConst', Z(0))), T(1, ('KFixed', Z(3))),
+       ('OAddRequired', N(1), ('ArgC', N(1)), False, Z(0), Z(0)), ('ONewIndicator', N(1), ('INbTasks', ('ResC', N(1))), None)],
+      'resource indicators on a CumulativeWorker read the (empty) busy dictionary of the wrapper object instead of its unit '
+      'workers: number of tasks assigned, utilisation, idle are always 0 [F18]')
+open_('F07n', 'C08', 'nb_tasks_late', 'C08/ind:1/nb_tasks_late',
+      [('ONewProblem', Some(Z(20))), W(1), T(1, ('KFixed', Z(3))), REQ(1, 1),
+       ('ONewIndicator', N(1), ('INbTasks', ('ResW', ('WPlain', N(1)))), None), T(2, ('KFixed', Z(3))), REQ(2, 1)],
+      'a resource indicator only sees the busy intervals that exist when it is created: a task assigned to the worker afterwards '
+      'is not counted [F07]')
+
 F.append(dict(id='F22', property='C13', status='open', clause_kind='reinit-multiobjective',
               witness=dict(case='corpus/C13/F22.json'),
               text="initialize() a second time (or a second SchedulingSolver) on a problem with two objectives raises ValueError: build_equivalent_weighted_objective registers 'EquivalentIndicator' / 'MinimizeEquivalentObjective' in the problem itself [F22]"))
@@ -52,5 +77,6 @@ fixed('F17', 'C08', '421b4db', "IndicatorTardiness and IndicatorNumberOfTardyTas
 fixed('F20', 'C12', '2f459fe', 'solve(); find_another_solution() with an optional task raised Z3Exception (chained != ==)')
 fixed('F21', 'C13', '6c71f70', 'ObjectiveMinimizeMakespan: solve(); solve() -> second returns False (pushed bounds never popped)')
 fixed('F24', 'C16', '366875c', "SchedulingSolver(optimizer='optimize').export_to_smt2 raised AttributeError: to_smt2")
+fixed('F39', 'C08', 'c9f7563', 'IndicatorEarliness counted due - (-k) for an unscheduled optional task')
 json.dump({'findings': F}, open('/verif/known_findings.json', 'w'), indent=1)
 print(len(F), 'findings written')
